@@ -480,6 +480,10 @@ impl<'a> Tx<'a> {
                 if self.lock_vars.contains(&a) {
                     return "()".into();
                 }
+                if self.ops {
+                    // R79: in the OPS family values are ids and reclamation is explicit (retire / free calls); dropping a local has no arena effect
+                    return "()".into();
+                }
                 return format!("treebin_drop(h, {})", a);
             }
             "HashMap::with_capacity_and_hasher" | "Self::with_capacity_and_hasher" if self.ops => {
